@@ -34,6 +34,11 @@ PROP = {
         H("c03_reader_hb_then_hb", _rd, "two HEARTBEATs: both answers truthful, base and count monotone, duplicate count ignored", "SNs 1..W, counts 1..4", tier="thorough", timeout=2400),
         H("c03_proxy_step_top", _wp, "one proxy step (DATA / GAP single / GAP range / HEARTBEAT.first) from ANY valid state whose window ends at i64::MAX: no panic or overflow, known set = pre ∪ op, frontier monotone and exact while an unknown SN is left", "window of W+2 SNs ending at i64::MAX; <= CAP out-of-order entries", timeout=900),
         H("c03_reader_hb_extreme_top", _rd, "real Reader, fresh matched proxy, ONE HEARTBEAT whose firstSN/lastSN sit at the top of the i64 range (what a hostile or broken peer can put on the wire; C06's 'extreme in its numeric fields' on the HEARTBEAT path): no panic or overflow, exactly one ACKNACK, base == firstSN, lowest missing SN requested, no more SNs requested than advertised", "first = i64::MAX - a, last = first + w, 0 <= w <= a <= 3; final flag free", timeout=900),
+        H("c03_reader_partial_fragment_g2_acknack", _rd, "real Reader, concrete prefix through the real handle_datafrag_msg (fragment 2 of 3 of SN 1), then a symbolic HEARTBEAT(1..last<=3, final flag free): exactly one ACKNACK, base == 1 (the partially received sample is not acknowledged), SN 1 not listed (it goes by NACKFRAG), exactly the wholly missing SNs 2..last listed", "3 fragments of 4 bytes; last in 1..3; Reader::missing_frags_for stubbed to 'none' under Kani (NACKFRAG content is C05's c05_missing_frags_*)", timeout=1200,
+          # symbolic inputs: last (i64, 1..3), final flag (bool) -- Kani's trace generation for this harness needs > 30 GB
+          replay_grid=[[[l, 0, 0, 0, 0, 0, 0, 0], [f]] for l in (1, 2, 3) for f in (0, 1)]),
+        H("c03_reader_partial_fragment_g1_acknack", _rd, "same with fragment 1 arrived", "same", tier="thorough", timeout=1200,
+          replay_grid=[[[l, 0, 0, 0, 0, 0, 0, 0], [f]] for l in (1, 2, 3) for f in (0, 1)]),
         H("c03x_partial_prefix_only", _rd, "EXPERIMENT: cost of one concrete DATAFRAG into the real Reader", "concrete", tier="experimental", timeout=900),
         H("c03x_partial_direct_then_hb", _rd, "EXPERIMENT: assembler state put in place directly, then a symbolic HEARTBEAT", "last in 1..3", tier="experimental", timeout=1500),
         H("c03_reader_partial_fragment_g2_hb", _rd, "real Reader, concrete prefix: fragment 2 of 3 of SN 1 arrived; symbolic HEARTBEAT(1..last<=3, final flag free): ACKNACK base == 1, exactly the wholly missing SNs requested, NACKFRAG for SN 1 names exactly fragments 1 and 3, counts differ", "3 fragments of 4 bytes; last in 1..3", tier="thorough", timeout=2400),
@@ -43,12 +48,12 @@ PROP = {
         H("c03_reader_hb_fresh", _rd, "fresh matched writer, HEARTBEAT(first,last,final) symbolic: answered iff required, base <= first, requested SNs inside [first,last], lowest missing requested", "first in 1..4, last in first-1..4"),
     ],
     "bounds": {"unwind": "7 (Reader object) / 10-11 (kernels)", "sn_window": "4 (quick) / 5 (thorough)", "CAP": "4 / 6", "number_set_spans": "concrete grid {2,32,33,255,256,258,300}, bases {1, 5, 7, 2^31-2, 2^32-1}", "top_of_range": "HEARTBEAT first = i64::MAX-a, last = first+w, 0<=w<=a<=3 on the real Reader; proxy step with the window ending at i64::MAX", "vec_growth": "Vec::push grows to a concrete capacity of 16; vec![x;n] n <= 9"},
-    "outside": ["sequences of two or more symbolic events on the real Reader object did not finish under the quick cap (thorough tier tries them; listed as undecided in evidence when they do not finish): multi-step coverage comes from the kernel harnesses, which start from ANY valid proxy state", "windows wider than 300", "partially received fragmented samples (NACKFRAG path) are exercised under C05 (missing_frags_for)"],
-    "assumptions": ENV_STUBS + ["stub: Reader::encode_and_send -> records the ACKNACK/NACKFRAG fields of the Message built by the real code (serialisation is C14)", "stub: Reader::send_status_change / send_participant_status / notify_cache_change -> recorders (the real bodies wrap mio-extras try_send, whose io::Error drop glue explodes symbolic execution)", "stub: Vec::push / vec![x;n] -> same semantics with concrete allocation sizes (env/mod.rs)"],
+    "outside": ["sequences of two or more symbolic events on the real Reader object did not finish under the quick cap (thorough tier tries them; listed as undecided in evidence when they do not finish): multi-step coverage comes from the kernel harnesses, which start from ANY valid proxy state", "windows wider than 300", "the NACKFRAG a partially received sample is answered with (content decided under C05, missing_frags_for; the Reader glue that builds it does not finish)"],
+    "assumptions": ENV_STUBS + ["stub: Reader::encode_and_send -> records the ACKNACK/NACKFRAG fields of the Message built by the real code (serialisation is C14)", "stub: Reader::send_status_change / send_participant_status / notify_cache_change -> recorders (the real bodies wrap mio-extras try_send, whose io::Error drop glue explodes symbolic execution)", "stub: Vec::push / vec![x;n] -> same semantics with concrete allocation sizes (env/mod.rs)", "stub (c03_reader_partial_fragment_*_acknack only): Reader::missing_frags_for -> no fragment numbers, so the real code builds no NACKFRAG and goes on to the ACKNACK"],
     "trusted": ["/verif/shim/collections.rs", "/verif/env, /verif/harness/env_*.rs (environment stand-ins)"],
     "explanation": "C03: Reader::handle_heartbeat_msg on the real Reader object.",
     "technique": "Kani/CBMC bounded symbolic model checking of the real Reader object (handle_heartbeat_msg and friends) with environment stubs",
     "level_text": "SAT-solver verdict: (kernels) over ALL valid writer-proxy states and HEARTBEAT ranges for missing_seqnums and the proxy step, over all members for the 256-window of from_base_and_set on a grid of bases/spans; (object) over all HEARTBEAT(first,last,final) in a small window AND at the top of the i64 range for a real Reader with a freshly matched writer.",
-    "level_note": "The real Reader::handle_heartbeat_msg is decided only from the fresh state (one symbolic HEARTBEAT); for other states the truthfulness of ACKNACKs rests on the kernel harnesses of the functions it composes (proxy step, missing_seqnums, from_base_and_set, missing_frags_for), not on the glue itself: a defect confined to the glue that needs a non-fresh state (e.g. base computation with a partially received fragment) is NOT caught by the quick tier (confirmed by a seeded defect, /verif/seeded/README.md). Trusted: Kani/CBMC/CaDiCaL, container shim, environment stubs listed in evidence.",
+    "level_note": "The real Reader::handle_heartbeat_msg is decided from the fresh state (one symbolic HEARTBEAT, small window and top of the i64 range) and from ONE non-fresh state: a concrete partially received sample, for which the ACKNACK half is decided with Reader::missing_frags_for stubbed to 'none' under Kani (the NACKFRAG-building half does not finish; NACKFRAG content is decided on the FragmentAssembler, c05_missing_frags_*). For other states the truthfulness of ACKNACKs rests on the kernel harnesses of the functions it composes (proxy step, missing_seqnums, from_base_and_set, missing_frags_for), not on the glue itself. For c03_reader_partial_fragment_*_acknack Kani's trace generation needs > 30 GB, so the counterexample values come from a six-entry grid over its two scalar inputs that is replayed natively after the solver reported the failure (only an assignment that fails natively with the same check is reported). Trusted: Kani/CBMC/CaDiCaL, container shim, environment stubs listed in evidence.",
 }
 
